@@ -174,6 +174,10 @@ mod __rt__ {
 
 pub mod util;
 
+#[cfg(ohkami_verif)]
+#[doc(hidden)]
+pub mod __verif__;
+
 #[cfg(feature="__rt_native__")]
 mod config;
 #[cfg(feature="__rt_native__")]
